@@ -259,14 +259,20 @@ PROPS["C16"]["need_engine"] = True
 
 PROPS["C12"] = {
     "module": "RCE.Props.C12",
-    "theorems": ["RCE.Props.C12.tt_mate_sound_partial", "RCE.Props.C12.mate_score_sound_partial", "RCE.Props.C12.statements_refuted"],
+    "theorems": ["RCE.Props.C12.tt_mate_sound_partial", "RCE.Props.C12.mate_score_sound_partial", "RCE.Props.C12.statements_refuted",
+                 "RCE.Props.C12.mate_in_one_played", "RCE.Props.C12.mate_in_one_answered", "RCE.Props.C12.mateOneInv_empty",
+                 "RCE.Props.C12.chess_orderScoresOK", "RCE.Props.C12.mate_in_one_nonvacuous",
+                 "RCE.Props.C12.avoidable_mate_avoided_partial", "RCE.Props.C12.avoidable_mate_avoided_again", "RCE.Props.C12.avoidable_mate_statement_refuted",
+                 "RCE.Props.C12.mate_in_two_kept_partial", "RCE.Props.C12.mate_in_two_kept_four", "RCE.Props.C12.mate_in_two_statement_refuted"],
     "streams": {"quick": [S("search-mate", "mate", 128, 4)], "thorough": [S("search-mate", "mate", 3200, 5), SK_T]},
     "eval_key": "cases", "distinct_key": "distinct_cases",
     "rule": SEARCH_RULE + "; for C12: positions WITHOUT history and with a small half-move clock are mined by brute force (sparse random positions and random play from the seeds) so that a third has a mate in one, "
             "a third a forced mate in two, a third an avoidable mate-in-one threat; each is searched to depth 3 and 4 from an empty cache and again after earlier completed searches of the same position at the other "
             "depths 1..4 in a random order (cache kept); after every completed search of depth >= 3 the chosen move is judged by a mate solver over the rules spec (the mined witness is re-verified on the spec first): "
             "mate in one must be played, a forced mate must be kept (shortest, or any within three more moves), an avoidable mate in one must not be allowed",
-    "assumptions": ["KeyMate: positions with equal 64-bit keys agree on forced mates", "the completeness clauses are decided by the oracle run, not by a theorem (path-dependent mate distances)",
+    "assumptions": ["KeyMate: positions with equal 64-bit keys agree on forced mates", "first completeness clause (a mate in one is played, from the empty cache and after earlier completed searches of the same position) is a theorem under MatedKeysFresh / NoDrawAtMate / cache on, each shown necessary by a counter-example; "
+                    "second and third completeness clauses are theorems only under extra key / draw hypotheses (LineKeys, NoDrawBelow3, quiet key move or 4 plies; PlyKeys, MatedKeysFresh2, NoDrawAtMate2) and are REFUTED as stated for the abstract search "
+                    "(kernel-checked counter-example games; the runs need transpositions between plies 1 and 3, impossible in chess, or 1 and 5); on chess positions all clauses are decided by the oracle run over mined positions",
                     "the soundness theorems need NoMateInOne at the root and StrictScores for the initial cache: without them the statement is FALSE (kernel-checked counter-examples, see DESIGN.md D9)"],
 }
 PROPS["C14"]["extra"] = procdrive.c14_extra
